@@ -36,7 +36,7 @@ def cases(tier, seed):
             if tier == "quick" and rnd.random() < 0.6:
                 continue
             yield {"kind": "logprob", "N": N, "dbatch": db, "vbatch": vb, "rep": rep, "fast": fast, "mean_less": rnd.random() < 0.3, "seed": rnd.randrange(10**6)}
-        for N, b1, b2, r1, r2 in itertools.product([1, 3], DBATCH, DBATCH, ["dense", "linop", "root", "wideroot", "diag"], ["dense", "kron", "addeddiag", "wideroot"]):
+        for N, b1, b2, r1, r2 in itertools.product([1, 3], DBATCH, DBATCH, ["dense", "linop", "root", "wideroot", "diag"], ["dense", "kron", "addeddiag", "wideroot", "diag"]):
             if tier == "quick" and rnd.random() < 0.5:
                 continue
             yield {"kind": "kl", "N": N if r2 != "kron" else 4, "b1": b1, "b2": b2, "r1": r1, "r2": r2, "seed": rnd.randrange(10**6)}
